@@ -357,6 +357,21 @@ class Fn:
                     dq.append(s)
         return True
 
+    def control_deps(self, b):
+        """Switch blocks that `b` is control-dependent on: one arm always leads to b, another can reach a return without it."""
+        out = []
+        div = self.diverging()
+        for s in sorted(self.reachable()):
+            if self.blocks[s].term["k"] != "switch" or s in div:
+                continue
+            succ = [x for x in self.succ(s) if x not in div]
+            if len(succ) < 2:
+                continue
+            pd = [self.postdominates(b, x) for x in succ]
+            if any(pd) and not all(pd):
+                out.append(s)
+        return out
+
     def loops(self):
         """Natural loops: list of dict(header, body(set), backedges[(src,header)], exits[(src,dst)])."""
         if self._loops is None:
